@@ -1089,7 +1089,7 @@ Proof.
   - (* ODrain *) destruct pat; [|discriminate]. destruct f; [|discriminate].
     exact (exec_drain_f c w st a v sb eb k r Hwf HW Hfuse Hr).
   - (* OSplice *) destruct pat; [|discriminate]. destruct f; [|discriminate]. cbn [admissible] in Hadm.
-    exact (exec_splice_f c w st a v sb eb rk n wrong_at claimed k r Hwf HW Hfuse Hr Hadm).
+    exact (exec_splice_f c w st a v sb eb rk n wrong_at claimed k r Hwf HW Hfuse Hr (proj1 Hadm)).
   - (* OClone *) cbn [admissible] in Hadm. exact (exec_clone_f c w st v dst k r Hwf HW Hfuse Hr Hadm).
 Qed.
 
